@@ -175,7 +175,7 @@ func WConfig(prop, tier string) *Config {
 		if thorough {
 			cfg.Phases = []Phase{{Name: "full-depth3", Roots: roots01, Ops: ops, Depth: 3, Dev: 3}, {Name: "core-depth4", Roots: []string{"R1"}, Ops: core, Depth: 4, Dev: 4}}
 		} else {
-			cfg.Phases = []Phase{{Name: "full-depth2", Roots: roots01, Ops: ops, Depth: 2, Dev: 2}, {Name: "core-depth3", Roots: []string{"R1"}, Ops: core, Depth: 3, Dev: 3}}
+			cfg.Phases = []Phase{{Name: "full-depth2", Roots: roots01, Ops: ops, Depth: 2, Dev: 2}, {Name: "core-depth3", Roots: []string{"R1"}, Ops: []string{"llp_open_t3_x9", "perp_open_long_t3_max", "price_atom_4", "price_atom_2", "price_atom_8", "gap_30d", "llp_bot_close_all", "llp_bot_stoploss_all", "perp_bot_close_all", "perp_other_trader_closes_all_twice"}, Depth: 3, Dev: 3}}
 		}
 	default:
 		return nil
